@@ -258,6 +258,14 @@ def build(fc, params):
     raise ValueError(fc)
 
 
+def _r20(v):
+    """round a score to the 2^-20 grid.  Absolute-error scores on small dyadic data are often MATHEMATICALLY tied between
+    candidates without being float-identical; pandas ranks the floats, the model exact rationals.  On the grid the fold
+    scores and their sums are exact in floating point, so both orderings coincide (sums equal or >= 2^-20 apart)."""
+    v = float(v)
+    return v if v != v else round(v * 1048576.0) / 1048576.0
+
+
 def make_metric(case):
     from sktime.performance_metrics.forecasting import (make_forecasting_scorer, MeanAbsoluteError,
                                                         MeanAbsolutePercentageError)
@@ -272,14 +280,17 @@ def make_metric(case):
         return make_forecasting_scorer(ctl, name="ctl", greater_is_better=gib)
     if m == "mae":
         def mae(a, b):
-            return float(np.mean(np.abs(np.asarray(a, dtype=float) - np.asarray(b, dtype=float))))
+            return _r20(np.mean(np.abs(np.asarray(a, dtype=float) - np.asarray(b, dtype=float))))
         return make_forecasting_scorer(mae, name="mae", greater_is_better=gib)
     if m == "negmae":
         def negmae(a, b):
-            return -float(np.mean(np.abs(np.asarray(a, dtype=float) - np.asarray(b, dtype=float))))
+            return -_r20(np.mean(np.abs(np.asarray(a, dtype=float) - np.asarray(b, dtype=float))))
         return make_forecasting_scorer(negmae, name="negmae", greater_is_better=gib)
     if m == "MAE":
-        return MeanAbsoluteError()
+        class MeanAbsoluteErrorOnGrid(MeanAbsoluteError):          # the library class, its result put on the grid
+            def __call__(self, y_true, y_pred, **kw):
+                return _r20(super(MeanAbsoluteErrorOnGrid, self).__call__(y_true, y_pred, **kw))
+        return MeanAbsoluteErrorOnGrid()
     if m == "mape":
         return MeanAbsolutePercentageError(symmetric=False)
     if m == "none":
